@@ -36,4 +36,14 @@ SCENARIOS = {
             ),
         },
     ),
+    # M3 - control flow inside a function body
+    "M3": Scenario(
+        "M3", "module", [], ops=("Not", "Noop"), loads=("TRUE",), containers=("cond", "if", "loop", "cfg"), max_depth=3,
+        funcs=(("main", [B, Q], None),), extra={"max_blocks": 3},
+    ),
+    # M4 - metadata on nodes + order edges + a function called more than once + a constant loaded more than once
+    "M4": Scenario(
+        "M4", "module", [], ops=("Not", "Noop"), loads=("TRUE",), containers=("nested",), max_depth=3, orders=True,
+        funcs=(("f", [B], [B]), ("main", [B, B], None)), extra={"fn_ops": ("call",), "metadata": True},
+    ),
 }
